@@ -307,6 +307,8 @@ func runInverseStage(w *out.W, tier string) {
 			}
 			onlyRev = keep
 		}
+		sort.Strings(onlyRev)
+		sort.Strings(onlyInv)
 		// a reverse that only clears a comment the inverse plan does not bother to clear (the object is
 		// dropped right after): redundant, harmless
 		{
@@ -344,6 +346,25 @@ func runInverseStage(w *out.W, tier string) {
 				continue
 			}
 		}
+		// MySQL, ModifyForeignKey with another referenced table/column: both directions drop the index
+		// MySQL created for the key (it re-creates one with the new key); a reverse that re-creates it
+		// explicitly with its columns (`ADD INDEX f (cols)`, the proposed fix of C17-mysql-modify-fk-reverse-empty-index)
+		// restores the same schema as the inverse plan's DROP INDEX + ADD CONSTRAINT
+		if !g.pg && strings.Contains(kinds, "MF") && len(onlyRev) > 0 && len(onlyRev) == len(onlyInv) {
+			same := true
+			for k := range onlyRev {
+				a, b := onlyRev[k], onlyInv[k]
+				i, j := strings.Index(a, ":: ADD INDEX "), strings.Index(b, ":: DROP INDEX ")
+				if i < 0 || j < 0 || strings.HasSuffix(a, " ()") || !strings.HasPrefix(a[i+len(":: ADD INDEX "):], b[j+len(":: DROP INDEX "):]+" (") {
+					same = false
+				}
+			}
+			if same {
+				w.Count("mysql:modify-fk-key-index-recreated-explicitly")
+				w.Count(src + ":reverse=inverse-plan")
+				continue
+			}
+		}
 		class := "reverse-not-inverse-plan"
 		allMatch := func(l []string, f func(string) bool) bool {
 			for _, s := range l {
@@ -369,8 +390,6 @@ func runInverseStage(w *out.W, tier string) {
 		case len(onlyRev) == 0 && hasDIDC && allMatch(onlyInv, isAddIdx):
 			class = "reverse-drop-column-loses-its-index"
 		}
-		sort.Strings(onlyRev)
-		sort.Strings(onlyInv)
 		var sh []string
 		for _, s := range onlyRev {
 			sh = append(sh, "rev:"+shapeOf(s))
